@@ -79,28 +79,52 @@ def gen_dt(rng):
 MONTHS = ["jan", "feb", "mar", "apr", "may", "jun", "jul", "aug", "sep", "oct", "nov", "dec"]
 
 
+def case_variants(name):
+    """all 8 upper/lower-case variants of a three-letter month name"""
+    out = []
+    for mask in range(8):
+        out.append("".join(c.upper() if mask >> i & 1 else c for i, c in enumerate(name)))
+    return out
+
+
 def spellings(dt, rng):
-    """documented spellings of the instant `dt` together with the instant they denote."""
+    """documented spellings of the instant `dt` together with the instant they denote.
+
+    Exactly the family of lean/Verif/C08/Spelling.lean (theorem `spellings_agree`): order D-M-Y or
+    YYYY-M-D; day str(d) / zero-padded / absent; month str(mo) / zero-padded / the name in all 8 letter
+    cases; year 4 digits, or 2 digits in D-M-Y order for 1993..2092; time absent, HH:MM or HH:MM:SS, bare
+    or parenthesised, after 1, 2 or (random) 3..6 spaces.
+    """
     y, mo, d, H, M, S = dt
     out = []
-    mons = [str(mo), "%02d" % mo, MONTHS[mo - 1], MONTHS[mo - 1].upper(), MONTHS[mo - 1].capitalize()]
+    seen = set()
+
+    def add(text, inst):
+        if text not in seen:
+            seen.add(text)
+            out.append((text, inst))
+    mons = [str(mo), "%02d" % mo] + case_variants(MONTHS[mo - 1])
     days = [str(d), "%02d" % d]
     years4 = ["%04d" % y]
     years = list(years4)
     if 1993 <= y <= 2092:
         years.append("%02d" % (y % 100))
-    times = [("", (0, 0, 0)), (" %02d:%02d" % (H, M), (H, M, 0)), (" %02d:%02d:%02d" % (H, M, S), (H, M, S)),
-             (" (%02d:%02d:%02d)" % (H, M, S), (H, M, S)), ("  (%02d:%02d)" % (H, M), (H, M, 0))]
+    times = [("", (0, 0, 0))]
+    for body, val in (("%02d:%02d" % (H, M), (H, M, 0)), ("%02d:%02d:%02d" % (H, M, S), (H, M, S))):
+        for paren in (False, True):
+            clock = "(%s)" % body if paren else body
+            for gap in (1, 2, rng.randrange(3, 7)):
+                times.append((" " * gap + clock, val))
     for mon in mons:
         for t, (h, m_, s) in times:
             for yy in years:
                 for dd in days:
-                    out.append(("%s-%s-%s%s" % (dd, mon, yy, t), [y, mo, d, h, m_, s]))
-                out.append(("%s-%s%s" % (mon, yy, t), [y, mo, 1, h, m_, s]))
+                    add("%s-%s-%s%s" % (dd, mon, yy, t), [y, mo, d, h, m_, s])
+                add("%s-%s%s" % (mon, yy, t), [y, mo, 1, h, m_, s])
             for yy in years4:
                 for dd in days:
-                    out.append(("%s-%s-%s%s" % (yy, mon, dd, t), [y, mo, d, h, m_, s]))
-                out.append(("%s-%s%s" % (yy, mon, t), [y, mo, 1, h, m_, s]))
+                    add("%s-%s-%s%s" % (yy, mon, dd, t), [y, mo, d, h, m_, s])
+                add("%s-%s%s" % (yy, mon, t), [y, mo, 1, h, m_, s])
     return out
 
 
